@@ -22,13 +22,14 @@ const c16Bound = 10 * time.Second
 // c16Case is one bridged connection history.
 type c16Case struct {
 	ID     int    `json:"id"`
-	Closer string `json:"closer"`     // client | server: the TCP peer that closes first
-	Kind   string `json:"close_kind"` // full | half-then-full (CloseWrite, observed only, then Close, judged)
-	Flight string `json:"in_flight"`  // virgin | idle | same | opposite | both
-	N      int    `json:"n"`          // bytes the closer writes right before closing (same, both) / exchanged earlier (idle)
-	Chunk  int    `json:"chunk"`      // write size of the other peer's continuous stream (opposite, both)
-	Drain  bool   `json:"drain"`      // the closer reads the other peer's stream until it closes (else it never reads)
-	Phase  string `json:"phase"`      // matrix | churn | confirm
+	Closer string `json:"closer"`      // client | server: the TCP peer that closes first
+	Kind   string `json:"close_kind"`  // full | half-then-full (CloseWrite, observed only, then Close, judged) | abort (SetLinger(0)+Close: the peer goes away with a reset)
+	Flight string `json:"in_flight"`   // virgin | idle | same | opposite | both | unread (the other peer's N bytes sit unread in the closer's socket, nobody is sending)
+	N      int    `json:"n"`           // bytes the closer writes right before closing (same, both) / exchanged earlier (idle) / left unread (unread)
+	Slow   bool   `json:"slow_reader"` // the other peer reads at ~2.7 MB/s only (32 KiB every 12 ms), also after the close
+	Chunk  int    `json:"chunk"`       // write size of the other peer's continuous stream (opposite, both)
+	Drain  bool   `json:"drain"`       // the closer reads the other peer's stream until it closes (else it never reads)
+	Phase  string `json:"phase"`       // matrix | churn | confirm
 	Class  string `json:"class"`
 }
 
@@ -48,7 +49,18 @@ type c16Result struct {
 	LeakAfterBound bool    `json:"sockets_not_released,omitempty"`
 }
 
-func (c *c16Case) sig() string { return "C16:eof-not-propagated:" + c.Closer + "-closes-first" }
+func (c *c16Case) sig() string {
+	if c.Kind == "abort" {
+		return "C16:eof-not-propagated:" + c.Closer + "-aborts"
+	}
+	return "C16:eof-not-propagated:" + c.Closer + "-closes-first"
+}
+
+// strict reports whether completeness of the data written before the close
+// is judged: a graceful close by a peer that had nothing unread.
+func (c *c16Case) strict() bool {
+	return c.Kind != "abort" && (c.Flight == "virgin" || c.Flight == "idle" || c.Flight == "same")
+}
 
 // c16Peer is the reading side of one harness TCP end.
 type c16Peer struct {
@@ -61,12 +73,15 @@ type c16Peer struct {
 	eos      string
 	eosAt    time.Time
 	stop     atomic.Bool
+	slow     atomic.Bool // read 32 KiB every 12 ms only
 	done     chan struct{}
 }
 
-// c16NewPeer wraps one harness end; with read=false the end never reads.
-func c16NewPeer(conn *net.TCPConn, expect *bridgeStream, read bool) *c16Peer {
+// c16NewPeer wraps one harness end; with read=false the end never reads,
+// with slow=true it reads at a trickle.
+func c16NewPeer(conn *net.TCPConn, expect *bridgeStream, read, slow bool) *c16Peer {
 	p := &c16Peer{conn: conn, v: bridgeNewVerifier(expect), done: make(chan struct{})}
+	p.slow.Store(slow)
 	if read {
 		go p.readLoop()
 	} else {
@@ -84,8 +99,13 @@ func (p *c16Peer) readLoop() {
 		if p.stop.Load() {
 			return
 		}
+		rb := buf
+		if p.slow.Load() {
+			time.Sleep(12 * time.Millisecond)
+			rb = buf[:32<<10]
+		}
 		p.conn.SetReadDeadline(time.Now().Add(100 * time.Millisecond))
-		n, err := p.conn.Read(buf)
+		n, err := p.conn.Read(rb)
 		now := time.Now()
 		if n > 0 {
 			p.v.Check(buf[:n])
@@ -243,8 +263,15 @@ func (e *c16Engine) run(cs c16Case) (res c16Result) {
 	const endless = int64(1) << 40
 	xTotal := int64(cs.N)
 	streaming := cs.Flight == "opposite" || cs.Flight == "both"
-	py := c16NewPeer(y, bridgeNewStream(seed, cs.ID, 'x', xTotal), true) // y reads what x wrote
-	px := c16NewPeer(x, bridgeNewStream(seed, cs.ID, 'y', endless), !streaming || cs.Drain)
+	if cs.Flight == "unread" {
+		xTotal = 0 // the closer writes nothing
+	}
+	py := c16NewPeer(y, bridgeNewStream(seed, cs.ID, 'x', xTotal), true, cs.Slow) // y reads what x wrote
+	px := c16NewPeer(x, bridgeNewStream(seed, cs.ID, 'y', endless), (!streaming || cs.Drain) && cs.Flight != "unread", false)
+	wbound := c16Bound
+	if cs.Slow {
+		wbound = c16Bound + time.Duration(cs.N/(1<<20))*time.Second // the burst drains at the slow reader's pace
+	}
 	var yWrote atomic.Int64
 	var yStop atomic.Bool
 	yDone := make(chan struct{})
@@ -257,7 +284,9 @@ func (e *c16Engine) run(cs c16Case) (res c16Result) {
 		<-px.done
 		<-py.done
 		<-yDone
-		res.OtherWrote = yWrote.Load()
+		if streaming {
+			res.OtherWrote = yWrote.Load()
+		}
 	}
 
 	xs := bridgeNewStream(seed, cs.ID, 'x', xTotal)
@@ -297,6 +326,22 @@ func (e *c16Engine) run(cs c16Case) (res c16Result) {
 			res.Harness = "pre-close reply did not reach the closing peer"
 		}
 		res.PreCloseSent = xTotal
+	case "unread":
+		// the other peer writes N bytes and falls silent; the closer never reads them
+		if n, err := c16Write(y, ys, int64(cs.N), c16Bound); err != nil {
+			res.Harness = fmt.Sprintf("other peer could not write its %d bytes: %d written: %v", cs.N, n, err)
+			break
+		}
+		res.OtherWrote = int64(cs.N)
+		deadline := time.Now().Add(c16Bound)
+		need := min(cs.N, 64<<10) // a socket that is never read holds about 128 kB
+		for bridgeUnread(x) < need {
+			if time.Now().After(deadline) {
+				res.Harness = fmt.Sprintf("only %d of %d bytes reached the closing peer's socket", bridgeUnread(x), cs.N)
+				break
+			}
+			time.Sleep(2 * time.Millisecond)
+		}
 	case "opposite", "both":
 		// let the other peer's stream get going: the closer has read 256 KiB of it, or (closer not
 		// reading) the pipe is full / 8 MiB are under way
@@ -326,7 +371,7 @@ func (e *c16Engine) run(cs c16Case) (res c16Result) {
 		return res
 	}
 	if cs.Flight == "same" || cs.Flight == "both" {
-		n, err := c16Write(x, xs, xTotal, c16Bound)
+		n, err := c16Write(x, xs, xTotal, wbound)
 		res.PreCloseSent = n
 		if err != nil {
 			res.Harness = fmt.Sprintf("closer could not write its %d bytes before closing: %d written: %v", xTotal, n, err)
@@ -356,6 +401,9 @@ func (e *c16Engine) run(cs c16Case) (res c16Result) {
 		tClose = time.Now()
 	}
 	px.stop.Store(true)
+	if cs.Kind == "abort" {
+		x.SetLinger(0) // Close now discards unsent data and resets the connection
+	}
 	x.Close()
 
 	// ---- the other peer must now see end-of-stream within T of (close, last byte of pre-close data)
@@ -404,8 +452,11 @@ func (e *c16Engine) settle() (f, b int, leaked bool) {
 func c16Class(c *c16Case) string {
 	s := fmt.Sprintf("%s|%s-closes-first|%s|%s", c.Phase, c.Closer, c.Kind, c.Flight)
 	switch c.Flight {
-	case "idle", "same":
+	case "idle", "same", "unread":
 		s += "|n:" + sizeClass(c.N)
+		if c.Slow {
+			s += fmt.Sprintf("|burst:%dMiB|slow-reader", c.N>>20)
+		}
 	case "opposite":
 		s += fmt.Sprintf("|chunk:%d|drain:%v", c.Chunk, c.Drain)
 	case "both":
@@ -445,16 +496,56 @@ func c16Matrix(rng *rand.Rand, rep int) []c16Case {
 		add("half-then-full", "same", jit(70000), 0, false)
 		add("half-then-full", "same", jit(1<<20), 0, false)
 		add("half-then-full", "both", jit(4096), jit(16384), true)
+		// the peer goes away abortively (reset), with and without traffic from the other side
+		add("abort", "virgin", 0, 0, false)
+		add("abort", "idle", jit(1000), 0, false)
+		add("abort", "same", jit(4096), 0, false)
+		add("abort", "same", jit(262145), 0, false)
+		add("abort", "opposite", 0, jit(4096), true)
+		add("abort", "both", jit(1000), jit(4096), false)
+		// a plain Close with the other peer's bytes still unread in the socket (the kernel resets)
+		add("full", "unread", jit(1), 0, false)
+		add("full", "unread", jit(4096), 0, false)
+		add("full", "unread", jit(100000), 0, false)
+	}
+	return out
+}
+
+// c16SlowCases: a large burst followed at once by a graceful close while the
+// other peer reads slowly, so that the bridge still holds queued data when it
+// learns of the close. Strict cases: every byte, then end-of-stream.
+func c16SlowCases(rng *rand.Rand, quick bool) []c16Case {
+	sizes := []int{4 << 20, 8 << 20}
+	reps := 1
+	if !quick {
+		sizes = []int{4 << 20, 8 << 20, 16 << 20}
+		reps = 2
+	}
+	var out []c16Case
+	for k := 0; k < reps; k++ {
+		for _, n := range sizes {
+			for _, who := range []string{"client", "server"} {
+				if k > 0 {
+					n += rng.Intn(70000)
+				}
+				out = append(out, c16Case{Closer: who, Kind: "full", Flight: "same", N: n, Slow: true, Phase: "slow"})
+			}
+		}
 	}
 	return out
 }
 
 func c16Churn(rng *rand.Rand, n int) []c16Case {
 	var out []c16Case
-	flights := []string{"virgin", "idle", "same", "same", "opposite", "both"}
+	flights := []string{"virgin", "idle", "same", "same", "opposite", "both", "unread"}
 	for i := 0; i < n; i++ {
 		c := c16Case{Closer: []string{"client", "server"}[rng.Intn(2)], Kind: "full", Flight: flights[rng.Intn(len(flights))], Phase: "churn"}
+		if c.Flight != "unread" && rng.Intn(4) == 0 {
+			c.Kind = "abort"
+		}
 		switch c.Flight {
+		case "unread":
+			c.N = []int{1, 1000, 70000}[rng.Intn(3)]
 		case "idle", "same":
 			c.N = []int{1, 17, 1000, 4097, 70000, 300000}[rng.Intn(6)]
 		case "opposite":
@@ -469,9 +560,9 @@ func c16Churn(rng *rand.Rand, n int) []c16Case {
 
 // C16 — closing one end of a bridged TCP connection closes the other.
 func C16(r *core.Run) {
-	r.SetRule("harness TCP client -> real tcp-bridge-frontend -> real tcp-bridge-backend -> harness TCP server; per connection one peer closes first ({client, server} x {never used, idle after an exchange, its own data in flight, the other peer's data in flight, both} x sizes; full close, and CloseWrite followed by close); the other peer must read end-of-stream within T=10s of (close, last byte of the data sent before the close); with both peers gone each bridge process' socket count (/proc/<pid>/fd) must be back at its idle baseline within T; a missed bound is re-run alone on a fresh pair of bridge processes before it is reported; class = (phase, who closes first, close kind, what is in flight, sizes)")
+	r.SetRule("harness TCP client -> real tcp-bridge-frontend -> real tcp-bridge-backend -> harness TCP server; per connection one peer closes first ({client, server} x {never used, idle after an exchange, its own data in flight, the other peer's data in flight, both} x sizes; full close, CloseWrite followed by close, abortive close (SetLinger(0) or Close with unread data), and 4-16 MiB bursts closed at once towards a slow-reading peer); the other peer must read end-of-stream within T=10s of (close, last byte of the data sent before the close); with both peers gone each bridge process' socket count (/proc/<pid>/fd) must be back at its idle baseline within T; a missed bound is re-run alone on a fresh pair of bridge processes before it is reported; class = (phase, who closes first, close kind, what is in flight, sizes)")
 	r.Assume("a half close (CloseWrite) is only observed; the verdict is taken after the same peer has fully closed")
-	r.Assume("completeness of the data sent before the close is judged only when the closing peer had nothing unread (never used / idle / own data in flight): closing a TCP socket with unread data resets the connection and may discard the closer's own data even without a bridge")
+	r.Assume("completeness of the data sent before the close is judged only for a graceful close by a peer that had nothing unread (never used / idle / own data in flight, including the slow-reader bursts); for abortive closes only the propagation of the close and the release of the sockets are judged: closing a TCP socket with unread data resets the connection and may discard the closer's own data even without a bridge")
 	bins := bridgeBuild(r)
 	e, err := c16NewEngine(r, bins, "")
 	if err != nil {
@@ -488,6 +579,8 @@ func C16(r *core.Run) {
 	}
 	nMatrix := len(cases)
 	cases = append(cases, c16Churn(rng, r.Pick(40, 200))...)
+	nChurn := len(cases)
+	cases = append(cases, c16SlowCases(rng, r.Quick())...)
 	for i := range cases {
 		cases[i].ID = i
 		cases[i].Class = c16Class(&cases[i])
@@ -514,11 +607,19 @@ func C16(r *core.Run) {
 	fM, bM := e.topo.Census()
 	leakM := false
 	// churn: connections opened and closed over time
-	for i := nMatrix; i < len(cases); i++ {
+	for i := nMatrix; i < nChurn; i++ {
 		start(i)
 		time.Sleep(20 * time.Millisecond)
 	}
 	wg.Wait()
+	// slow readers: at most four at a time and nothing else running, so that the reader (not the
+	// bridge) is the bottleneck and data is still queued inside the bridge when the writer closes
+	for i := nChurn; i < len(cases); i += 4 {
+		for j := i; j < i+4 && j < len(cases); j++ {
+			start(j)
+		}
+		wg.Wait()
+	}
 	fC, bC, leakC := e.settle()
 	r.Set("sockets_right_after_matrix(not_settled)", map[string]int{"frontend": fM, "backend": bM})
 	r.Set("sockets_after_all_peers_gone_for_T", map[string]int{"frontend": fC, "backend": bC})
@@ -561,11 +662,17 @@ func C16(r *core.Run) {
 			t.eof++
 		}
 		lat = append(lat, res.LatencyMs)
-		strict := cs.Flight == "virgin" || cs.Flight == "idle" || cs.Flight == "same"
+		strict := cs.strict()
 		want := res.PreCloseSent
+		if cs.Slow {
+			r.Add("slow_reader_bursts_delivered_bytes", int(res.PreCloseRecv))
+		}
+		if cs.Kind == "abort" || cs.Flight == "unread" {
+			r.Add("abortive_closes_propagated", 1)
+		}
 		if strict && (res.PreCloseRecv != want || res.Altered) {
 			r.Violate("C16:data-before-close-lost:"+cs.Closer+"-closes-first",
-				fmt.Sprintf("case %d (%s): the other peer saw end-of-stream (%s) after %d of the %d bytes written before the close (altered=%v)", cs.ID, cs.Class, res.EOS, res.PreCloseRecv, want, res.Altered), cs, res)
+				fmt.Sprintf("case %d (%s): the other peer's stream ended (%s) after %d of the %d bytes written before the graceful close (altered=%v)", cs.ID, cs.Class, res.EOS, res.PreCloseRecv, want, res.Altered), cs, res)
 		} else if !strict && res.PreCloseRecv != want {
 			r.Add("pre_close_data_incomplete_after_reset_prone_close(observed_only)", 1)
 		}
@@ -655,8 +762,14 @@ func C16(r *core.Run) {
 		case cf.res.Missed:
 			for _, i := range cands[cf.sig] {
 				cs, res := cases[i], results[i]
-				r.Violate(cf.sig, fmt.Sprintf("case %d (%s): %s closed at a point where it had written %d bytes; the other peer received %d of them and then no end-of-stream for %s (bound T); reproduced when case %d was re-run alone on fresh bridge processes",
-					cs.ID, cs.Class, cs.Closer, res.PreCloseSent, res.PreCloseRecv, c16Bound, cf.cs.ID), cs, map[string]interface{}{"first": res, "solo": cf.res})
+				how := "closed"
+				if cs.Kind == "abort" {
+					how = "went away abortively (SetLinger(0)+Close)"
+				} else if cs.Flight == "unread" {
+					how = fmt.Sprintf("closed with %d received bytes unread (reset)", cs.N)
+				}
+				r.Violate(cf.sig, fmt.Sprintf("case %d (%s): %s %s at a point where it had written %d bytes; the other peer received %d of them and then no end-of-stream for %s (bound T); reproduced when case %d was re-run alone on fresh bridge processes",
+					cs.ID, cs.Class, cs.Closer, how, res.PreCloseSent, res.PreCloseRecv, c16Bound, cf.cs.ID), cs, map[string]interface{}{"first": res, "solo": cf.res})
 			}
 		default:
 			for _, i := range cands[cf.sig] {
